@@ -530,6 +530,47 @@ func vmOutErrorFacts(repo string, fset *token.FileSet) (map[string]string, error
 	}
 	facts["rendererCalls"] = "List (String × Bool) := [" + strings.Join(calls, ", ") + "]"
 
+	// 1b. run.go OpReturn: the Markdown converter writes through a convWriter, and a write error
+	//     recorded by it is raised as outError whatever the converter itself returns
+	convShape := ""
+	ast.Inspect(run, func(n ast.Node) bool {
+		b, ok := n.(*ast.BlockStmt)
+		if !ok {
+			return true
+		}
+		for i, s := range b.List {
+			as, ok := s.(*ast.AssignStmt)
+			if !ok || len(as.Rhs) != 1 {
+				continue
+			}
+			call, ok := as.Rhs[0].(*ast.CallExpr)
+			if !ok || exprString(fset, call.Fun) != "vm.env.conv" || len(call.Args) != 2 {
+				continue
+			}
+			wname := exprString(fset, call.Args[1])
+			shape := "conv(" + wname + ")"
+			// the writer must be a convWriter declared just before
+			if i > 0 {
+				if prev, ok := b.List[i-1].(*ast.AssignStmt); ok && len(prev.Lhs) == 1 && exprString(fset, prev.Lhs[0]) == wname {
+					shape += " writer=" + strings.Join(strings.Fields(exprString(fset, prev.Rhs[0])), " ")
+				}
+			}
+			// the statement right after the call, at the same nesting level
+			if i+1 < len(b.List) {
+				shape += " next=" + strings.Join(strings.Fields(exprString(fset, b.List[i+1])), " ")
+			}
+			if convShape != "" {
+				convShape += " | "
+			}
+			convShape += shape
+		}
+		return true
+	})
+	if convShape == "" {
+		return nil, fmt.Errorf("shape not recognised: no call of vm.env.conv in run.go")
+	}
+	facts["converterCall"] = "String := " + leanStr(convShape)
+
 	// 2. errors.go convertPanic: the first switch on msg.(type) maps outError to vm.newPanic(err)
 	ef, err := parse("errors.go")
 	if err != nil {
